@@ -144,7 +144,14 @@ func c16Body(e *Env) {
 			}
 		}
 		evals++
-		e.Probe(dm.Kind)
+		switch {
+		case dm.Slot2 != nil:
+			e.Probe("both_damaged")
+		case dm.Kind == "outside":
+			e.Probe("outside_header")
+		default:
+			e.Probe(dm.Kind)
+		}
 		e.Res.Nontrivial = true
 		if len(e.Res.Sigs) < 4000 {
 			e.Res.Sigs = append(e.Res.Sigs, simsched.Mix(runSig, uint64(dm.Slot), fnv64(dm.Kind), uint64(dm.Off), uint64(dm.Bit), uint64(dm.Len)))
